@@ -269,7 +269,7 @@ def run(ck):
               nontrivial=lambda c: ";" in c[2], sig=lambda c, e, o: "parse-transport-verdict", sample=2)
 
     # 2. request sequences through real sessions
-    n = 15000 if ck.thorough else 500
+    n = 15000 if ck.thorough else 400
     cases = [g.case(16 if ck.thorough else 12) for _ in range(n)]
     obs = ck.stream("sessions", cases, "C12_run", "C12", "C12_ok", nontrivial=nontrivial, sig=sig, project=project,
                     timeout=1500)
@@ -301,6 +301,7 @@ def run(ck):
     # 4. WSP: the same property on wrapped requests (defined at the end of this file)
     wsp_streams(ck)
     multi_sessions(ck)
+    effects_stream(ck)
 
     return ck.finish(
         rule="(a) random request sequences of length 1..12 (thorough 1..16) biased along the DESCRIBE/SETUP/PLAY and ANNOUNCE/SETUP/RECORD "
@@ -571,7 +572,7 @@ def gen_multi(rng):
 
 def multi_sessions(ck):
     rng = ck.rng
-    n = 1500 if ck.thorough else 90
+    n = 1500 if ck.thorough else 70
     cases = [gen_multi(rng) for _ in range(n)]
     obs = ck.stream("multi-sessions", cases, None, "C12_multi", "C12_multi_ok", compare=False,
                     nontrivial=lambda c: len(c[1]) >= 2 and len(c[3]) >= 1, sig=lambda c, e, o: "sessions-interfere",
@@ -586,3 +587,58 @@ def multi_sessions(ck):
     ck.extra["multi_sessions_stopped_midway"] = stopped
     if obs and stopped < len(cases) // 2:
         ck.broken.append(Broken("C12 multi-sessions: a response was stopped mid-way in only %d of %d cases" % (stopped, len(cases))))
+
+
+# ---------------------------------------------------------------- the session's effects on the registry
+def gen_effects(rng):
+    """publishing (and playing) flows with every request repeated at every state, consumers attached to the
+    published stream as soon as it appears (recording consumers and a real RTSP player), then TEARDOWN or
+    a plain disconnect"""
+    ws = rng.random() < 0.25
+    publish = rng.random() < 0.8
+    path = REC_X if publish else LIVE_A
+    wspath = path if ws else ""
+    if publish:
+        base = [("A", ANNOUNCE), ("S", SETUP), ("R", RECORD)]
+    else:
+        base = [("D", DESCRIBE), ("S", SETUP), ("P", PLAY)]
+    def mk(m, i):
+        cs = str(i + 1)
+        if m == ANNOUNCE:
+            return req(ANNOUNCE, cs, path, sdp=1)
+        if m == SETUP:
+            return req(SETUP, cs, path, ctl="streamid=0", transport=T_TCP_REC if publish else T_TCP)
+        return req(m, cs, path)
+    reqs = []
+    extras = [RECORD, RECORD, PLAY, ANNOUNCE, SETUP, DESCRIBE, OPTIONS, GET_PARAMETER]
+    for _, m in base:
+        for _ in range(rng.choice([0, 0, 1, 2])):
+            reqs.append(mk(rng.choice(extras), len(reqs)))
+        reqs.append(mk(m, len(reqs)))
+    for _ in range(rng.choice([1, 2, 3, 4])):      # repeated requests in the final state
+        reqs.append(mk(rng.choice(extras), len(reqs)))
+    if rng.random() < 0.4:
+        reqs.append(mk(TEARDOWN, len(reqs)))
+    env = [[LIVE_A, 1, False]] if (not publish or rng.random() < 0.5) else []
+    if rng.random() < 0.15:
+        env.append([REC_X, 1, False])       # the path is already published by somebody else: RECORD replaces it
+    return [ws, wspath, env, WATCH, reqs, [rng.choice([0, 1, 1, 2]), rng.random() < 0.5]]
+
+
+def effects_stream(ck):
+    rng = ck.rng
+    n = 1200 if ck.thorough else 70
+    cases = [gen_effects(rng) for _ in range(n)]
+    obs = ck.stream("publisher-effects", cases, None, "C12", "C12_effects_ok", compare=False,
+                    nontrivial=lambda c: sum(1 for q in c[4] if q[0] == RECORD) >= 2, sig=lambda c, e, o: "session-effects",
+                    timeout=1500)
+    created = 0
+    for o in obs:
+        try:
+            v = vparse(o)
+            created += v[3][1][2] > 0
+        except Exception:
+            pass
+    ck.extra["publisher_effects_with_consumers"] = created
+    if obs and created < len(cases) // 4:
+        ck.broken.append(Broken("C12 publisher-effects: consumers were attached to a published stream in only %d of %d cases" % (created, len(cases))))
